@@ -16,6 +16,7 @@ package propagation_test
 import (
 	"context"
 	"fmt"
+	"net/http"
 	"os"
 	"strings"
 	"testing"
@@ -503,6 +504,120 @@ func (c *c03) oneTracestate(in string, desc func() any) {
 }
 
 var tsAlphabet = []byte{'a', '1', 'A', '=', ',', ' ', '\t', '@', '_', 0xc5, 0xa1, 0x80, '~'}
+
+// tracestateMembers: headers built from whole list-members (the byte words are too short to hold
+// two well-formed members with white space between them): every list of <= 4 members over keys
+// {a, b}, values {1, 2}, optional white space before / after the member, and the empty member.
+// What is judged is what oneTracestate judges: a parsable header yields a conforming state (unique
+// keys in particular), and no tracestate invalidates a good traceparent.
+var tsMemberTokens = []string{"a=1", "a=2", "b=1", " a=1", "a=2 ", "\ta=1", " b=2\t", "", " ", "a@t=1", " a@t=2"}
+
+func (c *c03) tracestateMembers(job string) {
+	r := c.r
+	maxN := enum.Pick(r, 4, 5)
+	r.Bound("tracestate_member_tokens", tsMemberTokens)
+	r.Bound("tracestate_member_list_len", maxN)
+	r.Section(job)
+	idx := make([]int, 0, maxN)
+	var rec func() bool
+	rec = func() bool {
+		if len(idx) > 0 {
+			if c.expired() {
+				return false
+			}
+			if r.Want() {
+				parts := make([]string, len(idx))
+				for i, t := range idx {
+					parts[i] = tsMemberTokens[t]
+				}
+				in := strings.Join(parts, ",")
+				d := func() any { return map[string]any{"tracestate": show(in), "members": parts} }
+				c.oneTracestate(in, d)
+				r.Sample(d)
+			}
+		}
+		if len(idx) == maxN {
+			return true
+		}
+		for t := range tsMemberTokens {
+			idx = append(idx, t)
+			ok := rec()
+			idx = idx[:len(idx)-1]
+			if !ok {
+				return false
+			}
+		}
+		return true
+	}
+	rec()
+}
+
+// carriers: Inject into a carrier that already holds the headers of an earlier Inject (a request
+// object reused for a retry, a second hop): every sequence of <= 3 injections of valid span
+// contexts into ONE carrier, for both carrier types of the package, then Extract: the result is
+// the context injected last. (All contexts carry a tracestate: a carrier has no delete, so a stale
+// tracestate under a context without one is outside what Inject can do.)
+func (c *c03) carriers(job string) {
+	r := c.r
+	mk := func(t, s byte, sampled bool, ts string) trace.SpanContext {
+		st, err := trace.ParseTraceState(ts)
+		if err != nil {
+			panic(err)
+		}
+		fl := trace.TraceFlags(0)
+		if sampled {
+			fl = trace.FlagsSampled
+		}
+		return trace.NewSpanContext(trace.SpanContextConfig{TraceID: trace.TraceID{t, 1}, SpanID: trace.SpanID{s, 2}, TraceFlags: fl, TraceState: st})
+	}
+	scs := []trace.SpanContext{mk(1, 1, true, "a=1"), mk(2, 2, false, "b=2,a=1"), mk(1, 3, true, "a=3"), mk(4, 4, false, "c=4")}
+	r.Bound("carrier_span_contexts", len(scs))
+	r.Bound("carrier_max_injections", 3)
+	r.Bound("carrier_types", []string{"MapCarrier", "HeaderCarrier"})
+	r.Section(job)
+	for _, kind := range []string{"MapCarrier", "HeaderCarrier"} {
+		for L := 1; L <= 3; L++ {
+			seq := make([]int, L)
+			for {
+				if r.Want() {
+					var carrier propagation.TextMapCarrier = propagation.MapCarrier{}
+					if kind == "HeaderCarrier" {
+						carrier = propagation.HeaderCarrier(http.Header{})
+					}
+					for _, i := range seq {
+						r.Eval()
+						c.prop.Inject(trace.ContextWithSpanContext(context.Background(), scs[i]), carrier)
+					}
+					r.Eval()
+					got := trace.SpanContextFromContext(c.prop.Extract(context.Background(), carrier))
+					want := scs[seq[L-1]]
+					d := map[string]any{"carrier": kind, "injected_in_order": seq, "headers": map[string]string{"traceparent": carrier.Get("traceparent"), "tracestate": carrier.Get("tracestate")}}
+					if got.TraceID() != want.TraceID() || got.SpanID() != want.SpanID() || got.IsSampled() != want.IsSampled() || got.TraceState().String() != want.TraceState().String() || !got.IsRemote() {
+						cls := "first injection"
+						if L > 1 {
+							cls = "carrier already held the headers of an earlier injection"
+						}
+						r.FailHere("roundtrip-carrier|"+kind+"|"+cls, d, "injected last: %s/%s sampled=%v tracestate=%q; extracted: %s/%s sampled=%v tracestate=%q remote=%v",
+							want.TraceID(), want.SpanID(), want.IsSampled(), want.TraceState().String(), got.TraceID(), got.SpanID(), got.IsSampled(), got.TraceState().String(), got.IsRemote())
+					}
+					r.Outcome(fmt.Sprint(kind, seq[L-1], L))
+				}
+				i := L - 1
+				for i >= 0 {
+					seq[i]++
+					if seq[i] < len(scs) {
+						break
+					}
+					seq[i] = 0
+					i--
+				}
+				if i < 0 {
+					break
+				}
+			}
+		}
+	}
+}
 
 func (c *c03) tracestateWords(first int, job string) {
 	r := c.r
@@ -1223,7 +1338,7 @@ func TestVerifC03(t *testing.T) {
 	for i := range tsAlphabet {
 		jobs = append(jobs, fmt.Sprintf("ts-words-%d", i))
 	}
-	jobs = append(jobs, "ts-bounds")
+	jobs = append(jobs, "ts-bounds", "ts-members", "carriers")
 	const runeParts, tripleParts = 4, 2
 	for i := 0; i < runeParts; i++ {
 		jobs = append(jobs, fmt.Sprintf("ts-runes-%d", i))
@@ -1252,6 +1367,10 @@ func TestVerifC03(t *testing.T) {
 			c.tracestateWords(a, job)
 		case job == "ts-bounds":
 			c.tracestateBounds(job)
+		case job == "ts-members":
+			c.tracestateMembers(job)
+		case job == "carriers":
+			c.carriers(job)
 		case scan(job, "ts-runes-%d", &a):
 			c.tracestateRunes(a, runeParts, job)
 		case scan(job, "edit-%d", &a):
